@@ -61,7 +61,13 @@ func ssaRanges(fn *ssa.Function, peerSent []aff) ssaRangeFacts {
 				continue
 			}
 			switch {
-			case callee.Name() == "ReceiveUint32" && strings.HasSuffix(callee.Signature.Recv().Type().String(), "/p2p.Conn"):
+			case recvWrapper(callee) == "ReceiveUint32" && callee.Signature.Results().Len() == 1:
+				// the integer arrives through a wrapper of the transfer (errWriter idiom)
+				if nrecv < len(peerSent) {
+					env.bind[c] = peerSent[nrecv]
+				}
+				nrecv++
+			case callee.Name() == "ReceiveUint32" && callee.Signature.Recv() != nil && strings.HasSuffix(callee.Signature.Recv().Type().String(), "/p2p.Conn"):
 				if c.Referrers() != nil {
 					for _, r := range *c.Referrers() {
 						if ex, ok := r.(*ssa.Extract); ok && ex.Index == 0 {
@@ -84,6 +90,11 @@ func ssaRanges(fn *ssa.Function, peerSent []aff) ssaRangeFacts {
 			cc := c.Common()
 			if callee := cc.StaticCallee(); callee != nil && callee.Name() == "SendUint32" && callee.Signature.Recv() != nil && strings.HasSuffix(callee.Signature.Recv().Type().String(), "/p2p.Conn") && after(b) {
 				f.sent = append(f.sent, env.eval(cc.Args[1]))
+			} else if callee != nil && after(b) && load.InModule(callee) && callee.Blocks != nil {
+				// a wrapper that sends its integer parameter
+				if k := sendsParam(callee, "SendUint32"); k >= 0 && k < len(cc.Args) {
+					f.sent = append(f.sent, env.eval(cc.Args[k]))
+				}
 			}
 			if cc.IsInvoke() && strings.HasSuffix(cc.Value.Type().String(), "/ot.OT") && (cc.Method.Name() == "Send" || cc.Method.Name() == "Receive") && len(cc.Args) >= 1 {
 				arg := cc.Args[len(cc.Args)-1]
@@ -188,4 +199,34 @@ func checkSSARanges(g, e ssaRangeFacts) string {
 		return fmt.Sprintf("%s choice flags for %s evaluator input bits", e.flagsLen, i1)
 	}
 	return ""
+}
+
+// sendsParam: callee hands one of its parameters to Conn.<method> (and does no other transfer); the index
+// of that parameter, or -1.
+func sendsParam(callee *ssa.Function, method string) int {
+	if len(callee.Blocks) > 6 {
+		return -1
+	}
+	idx := -1
+	for _, b := range callee.Blocks {
+		for _, ins := range b.Instrs {
+			c, ok := ins.(ssa.CallInstruction)
+			if !ok {
+				continue
+			}
+			cal := c.Common().StaticCallee()
+			if cal == nil || cal.Signature.Recv() == nil || !strings.HasSuffix(cal.Signature.Recv().Type().String(), "/p2p.Conn") {
+				continue
+			}
+			if cal.Name() != method || len(c.Common().Args) < 2 {
+				return -1
+			}
+			for i, prm := range callee.Params {
+				if c.Common().Args[1] == ssa.Value(prm) {
+					idx = i
+				}
+			}
+		}
+	}
+	return idx
 }
